@@ -101,6 +101,7 @@ PageWellFormed(pg) ==
   /\ pg.ulen = pg.datalen
   /\ pg.datalen = pg.replen + pg.deflen + pg.vallen
   /\ pg.nvals >= 0
+  /\ pg.padr < 8 /\ pg.padd < 8          \* a level stream holds num_values entries plus the padding of its last group
   /\ (cols[pg.col].maxrep > 0 /\ pg.nvals > 0) => pg.firstrep = 0
 
 \* the page as Stats.tla sees it: ranks of the non-null values (NaN = -2), then the nulls
@@ -273,7 +274,7 @@ TForeign ==
   /\ l' = l + 1
   /\ Chk("HARNESS", "ForeignFileSelfCheck", Ev.selfcheck = "")
   /\ Chk("HARNESS", "ForeignStriping",
-         Len(Ev.entries) = NCols /\ \A c \in 1..NCols : Ev.entries[c] = StripeAll(schema, ColPath(c), Ev.rows))
+         Ev.nostripe \/ (Len(Ev.entries) = NCols /\ \A c \in 1..NCols : Ev.entries[c] = StripeAll(schema, ColPath(c), Ev.rows)))
   /\ batches' = IF Ev.rows = <<>> THEN <<>> ELSE <<Ev.rows>>
   /\ UNCHANGED <<caseId, schema, cols, maxPage, codecN, recs, snk, wc, faultK, rowsTab, clean>>
 
@@ -295,6 +296,9 @@ TIntro ==
            \A k \in 1..Len(Ev.atchunk) :
               /\ Ev.atchunk[k].err = ""
               /\ Ev.atchunk[k].hdrs = [i \in 1..Len(ChunkPages(Ev, k)) |-> ChunkPages(Ev, k)[i].h])
+  /\ Chk("C16", "HeadersForPartialCounts",
+         (Ev.panic = "" /\ Ev.metaerr = "") =>
+           \A k \in 1..Len(Ev.atpartial) : Ev.atpartial[k].err = "" /\ Ev.atpartial[k].hdrs = Ev.atpartial[k].want)
   /\ Chk("C16", "HeadersFromPageOffsets",
          (Ev.panic = "" /\ Ev.metaerr = "") =>
            \A k \in 1..Len(Ev.atpage) : Ev.atpage[k].err = "" /\ Ev.atpage[k].hdrs = Ev.atpage[k].want)
